@@ -50,6 +50,16 @@ CHECKS = {
              "(guard page: only the element's slots may be touched); the sorted-layer sequences are replayed on the "
              "real arrays and judged on the decoded element sequence with the length carried as trace-spec state.",
         ref="DESIGN.md 4/C09", technique="TLA+ bit-string contract + TLC-enumerated configurations and operation sequences + TLC trace validation of memory images"),
+    "C10": dict(
+        text="Dimension.tla states the packed form, the width-pair byte, the header layout and the cell address; "
+             "DimensionModel.tla checks the formats on the specification for all (rows, cols) pairs at the byte-width "
+             "boundaries (all 72 width combinations) and emits them; the driver encodes every pair (header bytes, width "
+             "macros, announced length, pack/unpack) and writes cells at the matrix corners inside a PROT_NONE "
+             "reservation where only the header page and the expected cell's page are accessible; small matrices of "
+             "every entry kind get 14-step write sequences. DimensionTrace.tla requires every changed byte to lie in "
+             "the addressed cell, checks cell bytes, read-back, bit clear/toggle semantics, and carries the matrix "
+             "content as state to check re-reads of earlier cells.",
+        ref="DESIGN.md 4/C10", technique="TLA+ format/address spec checked by TLC + TLC-enumerated dimension pairs + stateful TLC trace validation with sparse guard mappings"),
     "C11": dict(
         text="BitstreamModel.tla checks the documented high/low split algorithm against the flat MSB-first bit-string "
              "contract exhaustively for 4-bit words (all contents of 3 words, offsets, widths, values; a wrong-mask "
